@@ -84,7 +84,8 @@ class VC:
 
     # ---- symbolic inputs
     def int(self, name, lo=None, hi=None):
-        v = z3.Int(self.path.fresh_name(name))
+        name = self.path.fresh_name(name)
+        v = z3.Int(name)
         if lo is not None:
             self.path.assume(v >= lo)
         if hi is not None:
@@ -104,6 +105,8 @@ class VC:
 
     def seq(self, name, positive=False, min_len=0, kind="tuple"):
         s = self.I.fresh_seq(name, positive=positive, min_len=min_len, kind=kind)
+        while name in self.inputs:
+            name += "'"
         self.inputs[name] = s
         return s
 
@@ -360,7 +363,8 @@ def run_obligation(obl: Obl, repo_root=None):
             cover = str(path.solver.check())
             if cover == "unsat":
                 continue
-            if cover == "sat" and vc.clauses:
+            if cover != "unsat" and vc.clauses:
+                # "unknown" (solver budget exhausted under load) is not evidence of vacuity
                 rec["paths_covered"] += 1
             rec["notes"] = sorted(set(rec["notes"]) | path.notes)
             for label, f in vc.clauses:
